@@ -22,7 +22,7 @@ CHECKS.update({
                    "deterministic simulation + independent re-validation of everything handed to the simulated store", ref="§7 C02"),
     "C03": session("Same simulated runs with planted twins (same bytes under different feed partitions, neighbours, sessions, dedup states, salts): pointer (hash,size) must equal the reference hash of the reference chunking and agree between twins.",
                    "deterministic simulation with twin contents across schedules, sessions and salts; reference file hash oracle", ref="§7 C03"),
-    "C11": session("Multi-session histories on one store and shard cache: later sessions re-upload, extend and recombine content of earlier finalized sessions; oracle on the store call log and the captured shards (every stored xorb listed in the session's shards; no chunk stored by an earlier finalized session is uploaded again; unchanged re-upload has new_bytes = 0).",
+    "C11": session("Multi-session histories on one store and shard cache: later sessions re-upload, extend and recombine content of earlier finalized sessions; oracle on the store call log and the captured shards (every stored xorb listed in the session's shards; no chunk stored by an earlier finalized session is uploaded again; unchanged re-upload has new_bytes = 0); the cache's chunk-index cap is sampled down to 64..2000 with a sound exemption once the cap may legitimately be reached.",
                    "deterministic simulation of session histories; conservation oracle over the simulated store's call log", ref="§7 C11"),
     "C14": session("Same simulated runs biased to fragmentation-heavy dedup patterns under small estimator windows and to out-of-order upload completion; conservation laws on per-file and session metrics against the bytes fed and the values the simulated store actually returned.",
                    "deterministic simulation with seeded completion order of background uploads; conservation oracle on metrics vs. store call log", ref="§7 C14"),
@@ -33,9 +33,9 @@ CHECKS.update({
 })
 
 CHECKS["C20"] = ("flight", "exploration",
-    "deterministic simulation of concurrent callers on a single-threaded paused-clock tokio runtime with seeded yields/sleeps at guarded points between lock sections; history oracle over invoke/return events",
-    "Real singleflight Group; callers, arrival times, task durations, task outcomes (value/error/panic) and the scheduling decisions at five guarded yield points between the lock sections of Group::work are drawn from the seed; the recorded history (event-sequence-stamped invoke/return/task-start/task-end) is checked: one task per flight, every caller gets the outcome of a flight of its key alive during its call, a call after the owner returned gets a new flight, nobody hangs (watchdog at quiescence).",
-    "Trusted: tokio primitives. Multi-threaded interleavings are emulated at lock-section granularity (H5), not at atomic-instruction granularity.", "§7 C20")
+    "deterministic simulation of concurrent callers (single-threaded paused-clock runtime with seeded yields/sleeps at guarded points between lock sections, and a multi-threaded mode under a cooperative thread scheduler with lock-aware schedule points); history oracle over invoke/return events",
+    "Real singleflight Group; callers, arrival times, task durations, task outcomes (value/error/panic) and the scheduling decisions at five guarded yield points between the lock sections of Group::work are drawn from the seed; the recorded history (event-sequence-stamped invoke/return/task-start/task-end) is checked: one task per flight, every caller gets the outcome of a flight of its key alive during its call, a call after the owner returned gets a new flight, nobody hangs (watchdog at quiescence). One run in three uses a multi-threaded mode: every caller is an OS thread with its own runtime under a cooperative one-thread-at-a-time scheduler that switches at the H5 points, at lock-aware points inside Call::{get_future,complete} (live only where the result lock is not held) and whenever a caller is pending; a run in which all remaining callers stay pending is a hang.",
+    "Trusted: tokio primitives. Interleavings are explored at lock-section granularity plus wherever a lock-aware point finds the result lock free (H5), not at atomic-instruction granularity.", "§7 C20")
 
 CACHE_NOTE = "Trusted: the file system (tmpfs), std::sync::Mutex. Interleavings are at the granularity of the H4 points (before each state-lock acquisition and file-system effect), which is the property's own granularity; one OS thread runs at a time."
 CHECKS["C12"] = ("cache", "exploration",
@@ -50,7 +50,7 @@ CHECKS["C13"] = ("cache", "exploration",
 SHARD_NOTE = "Trusted: the independent shard parser and hash code in sim/src/refmodel.rs, blake3. Inputs (model shards, queries, histories) are seeded generation; the simulated dimensions are reader delivery (short reads, Pending), the wall clock and file mtimes (H6), and directory histories."
 CHECKS["C05"] = ("shard", "exploration",
     "deterministic simulation of shard-directory histories (add/flush/plant/consolidate/keyed re-export/re-open under a simulated clock) with a reference chunk->xorb model; reader-seam fault injection (short reads)",
-    "Every dedup answer from the real in-memory index, the on-disk shard (through a short-reading reader) and the ShardFileManager (after each step of a seeded directory history incl. keyed shards under several keys) is checked for truthfulness against the model of all xorbs ever added: 1<=n<=|query|, range width n, positions hold the queried hashes (engineered duplicate chunks and colliding 64-bit prefixes), byte count = sum of lengths. Misses are always allowed here.",
+    "Every dedup answer from the real in-memory index, the on-disk shard (through a short-reading reader) and the ShardFileManager (after each step of a seeded directory history incl. keyed shards under several keys) is checked for truthfulness against the model of all xorbs ever added: 1<=n<=|query|, range width n, positions hold the queried hashes (engineered duplicate chunks and colliding 64-bit prefixes), byte count = sum of lengths; a third of the queries run over a xorb's end and continue with the hash of the record that follows in the shard. Misses are always allowed here.",
     SHARD_NOTE, "§7 C05")
 CHECKS["C09"] = ("shard", "exploration",
     "reader-seam simulation (seeded short reads, Pending polls, fragment walker) of the seekable, minimal and streaming shard readers against the record model and an independent shard parser",
@@ -62,7 +62,7 @@ CHECKS["C10"] = ("shard", "exploration",
     SHARD_NOTE, "§7 C10")
 CHECKS["C18"] = ("shard", "exploration",
     "deterministic simulation of keyed re-export histories under a simulated clock (creation/expiry/grace orderings) with byte-level oracle from an independent parser and HMAC implementation",
-    "Shards are re-exported under 4 keys (incl. zero) x 8 include-flag combinations; the exported bytes must carry keyed chunk hashes and table keys only, unchanged xorb/file hashes, sections iff requested, creation/expiry from the simulated clock; a manager over only the keyed export must answer unkeyed queries exactly like a manager over the original whenever the first chunk is unambiguous (with and without lookup tables); shards past expiry never load, deletion only at expiry+grace.",
+    "Shards are re-exported under 4 keys (incl. zero) x 8 include-flag combinations; the exported bytes must carry keyed chunk hashes and table keys only, unchanged xorb/file hashes, sections iff requested, creation/expiry from the simulated clock; a manager over only the keyed export must answer unkeyed queries exactly like a manager over the original whenever the first chunk is unambiguous (with and without lookup tables), and a manager over a directory with exports under several keys must hit whenever a live registered export holds the first query chunk; shards past expiry never load, deletion only at expiry+grace.",
     SHARD_NOTE, "§7 C18")
 
 XORB_NOTE = "Trusted: the independent xorb parser and hash code (sim/src/refmodel.rs), blake3; compressed chunk payloads are compared through the original input (C07) or decoded with /repo's own decoder (C08.d), since no independent LZ4/BG4 decoder is available offline."
